@@ -145,6 +145,9 @@ func canPut(s *snap.Snap, blockTime time.Time, msg *baskettypes.MsgPut) putVerdi
 }
 
 func (m *C11) AfterMsg(w *eng.World, st *eng.MsgStep) {
+	if st.Res.OK {
+		defer m.checkBalanceDates(w, st.Post, "msg "+st.Kind)
+	}
 	switch msg := st.Msg.(type) {
 	case *baskettypes.MsgPut:
 		if st.Res.Stage == "basic" {
@@ -254,7 +257,8 @@ func (m *C11) checkTake(w *eng.World, st *eng.MsgStep, msg *baskettypes.MsgTake)
 			preBal[bb.BatchDenom] = bb
 		}
 	}
-	amt, _ := new(big.Int).SetString(msg.Amount, 10)
+	// the amount as the chain read it = the tokens it burnt (C05 checks that this is a reading of the string)
+	amt := new(big.Int).Sub(pre.SupplyOf(bsk.BasketDenom), post.SupplyOf(bsk.BasketDenom))
 	want := new(big.Rat).SetFrac(amt, ref.Pow10(basketPrecision(pre, bsk.CreditTypeAbbrev)))
 	sum := zero()
 	var lastDate time.Time
@@ -280,7 +284,7 @@ func (m *C11) checkTake(w *eng.World, st *eng.MsgStep, msg *baskettypes.MsgTake)
 		if i < len(resp.Credits)-1 && a.Cmp(held) != 0 {
 			w.Violation("C11", "take-skipped-before-draining", "Take moved on to the next batch although %s still held %s (took %s)", c.BatchDenom, bb.Balance, c.Amount)
 		}
-		d := bb.BatchStartDate.AsTime()
+		d := batchStart(pre, bb)
 		if i > 0 && d.Before(lastDate) {
 			w.Violation("C11", "take-not-oldest-first", "Take entry %d (%s, start %s) is older than the previous entry (start %s)", i, c.BatchDenom, d, lastDate)
 		}
@@ -295,8 +299,8 @@ func (m *C11) checkTake(w *eng.World, st *eng.MsgStep, msg *baskettypes.MsgTake)
 		w.Violation("C11", "take-total-wrong", "Take of %s tokens released %s credits, want %s", msg.Amount, ref.RatString(sum), ref.RatString(want))
 	}
 	for dn, bb := range preBal {
-		if taken[dn] == nil && bb.BatchStartDate.AsTime().Before(lastDate) {
-			w.Violation("C11", "take-left-older-batch", "Take left batch %s (start %s) untouched while taking from a batch starting %s", dn, bb.BatchStartDate.AsTime(), lastDate)
+		if taken[dn] == nil && batchStart(pre, bb).Before(lastDate) {
+			w.Violation("C11", "take-left-older-batch", "Take left batch %s (start %s) untouched while taking from a batch starting %s", dn, batchStart(pre, bb), lastDate)
 		}
 	}
 	// post-state basket balances
@@ -341,6 +345,28 @@ func (m *C11) checkTake(w *eng.World, st *eng.MsgStep, msg *baskettypes.MsgTake)
 	}
 	if len(resp.Credits) >= 2 && outOfOrder {
 		m.outOfOrderTake = true
+	}
+}
+
+// batchStart is the start date of the BATCH (the Batch table is the source of truth;
+// the copy kept in the basket balance row is only an index helper).
+func batchStart(s *snap.Snap, bb *basketapi.BasketBalance) time.Time {
+	if b := s.BatchByDenom(bb.BatchDenom); b != nil && b.StartDate != nil {
+		return b.StartDate.AsTime()
+	}
+	return bb.BatchStartDate.AsTime()
+}
+
+// checkBalanceDates: the start date copied into every basket balance row equals the batch's.
+func (m *C11) checkBalanceDates(w *eng.World, s *snap.Snap, where string) {
+	for _, bb := range s.BasketBalances {
+		b := s.BatchByDenom(bb.BatchDenom)
+		if b == nil || b.StartDate == nil {
+			continue
+		}
+		if bb.BatchStartDate == nil || !bb.BatchStartDate.AsTime().Equal(b.StartDate.AsTime()) {
+			w.Violation("C11", "basket-balance-start-date-differs-from-batch", "%s: basket %d holds %s with recorded start date %v, the batch starts %v (oldest-first order is taken from the recorded date)", where, bb.BasketId, bb.BatchDenom, bb.BatchStartDate, b.StartDate.AsTime())
+		}
 	}
 }
 
